@@ -427,6 +427,25 @@ async fn run_history(c: &Value) -> Value {
           cl.stalled = op.get("on").and_then(|v| v.as_bool()).unwrap_or(true);
         }
       },
+      "read_some" => {
+        // a stalled reader takes up to n bytes off its socket and stalls again
+        let k = op["k"].as_u64().unwrap();
+        let n = op["n"].as_u64().unwrap_or(1024) as usize;
+        if let Some(cl) = clients.get_mut(&k) {
+          if let Some(s) = cl.stream.as_mut() {
+            let mut tmp = vec![0u8; n];
+            let mut got = 0usize;
+            while got < n {
+              match tokio::time::timeout(Duration::from_millis(1), s.read(&mut tmp[got..])).await {
+                Ok(Ok(0)) | Ok(Err(_)) | Err(_) => break,
+                Ok(Ok(m)) => got += m,
+              }
+            }
+            cl.buf.extend_from_slice(&tmp[..got]);
+            note = json!({"read": got});
+          }
+        }
+      },
       "advance" => {
         tokio::time::sleep(Duration::from_millis(op["ms"].as_u64().unwrap())).await;
       },
